@@ -309,10 +309,9 @@ func unitDone(r *mon.Run) {
 func child(r *mon.Run, args []string) {
 	// the live heap of a child is tiny; without this the collector runs every few MB of garbage
 	debug.SetGCPercent(400)
-	debug.SetMemoryLimit(1 << 30) // ... but collect before the address-space limit below is in sight
 	// memory guard: a decoder that trusts a declared length (or loops without consuming input) must
 	// kill this child ("out of memory" -> reported by the parent with the case in flight), not the machine
-	lim := uint64(4) << 30
+	lim := uint64(2) << 30
 	syscall.Setrlimit(syscall.RLIMIT_AS, &syscall.Rlimit{Cur: lim, Max: lim})
 	for i, tg := range targets {
 		tg.idx = i
@@ -474,7 +473,7 @@ func childGen(r *mon.Run, shard int) {
 				for _, mk := range mutKinds {
 					b := mutate(rng, enc, mk)
 					origin := "mut:" + mk
-					if claimsSizeIn(b, 1<<28, 1<<48) {
+					if claimsFatalSize(b) {
 						late = append(late, lateCase{tg, b, origin})
 						continue
 					}
@@ -504,7 +503,7 @@ func childGen(r *mon.Run, shard int) {
 			continue
 		}
 		b := hostile(r.Rand("hostile", i))
-		if claimsSizeIn(b, 1<<28, 1<<48) {
+		if claimsFatalSize(b) {
 			late = append(late, lateCase{nil, b, "hostile"})
 			continue
 		}
@@ -526,7 +525,6 @@ func childGen(r *mon.Run, shard int) {
 		unitDone(r)
 	}
 	defer func() { // after the fixed shapes below
-		flushEvery = 1
 		for _, lc := range late {
 			if curUnit < startUnit {
 				curUnit++
